@@ -1274,6 +1274,10 @@ namespace bloch::runtime {
                         place(it->second);
                     basesFirst.push_back(c);
                 };
+            // the implicit root of every class without a written base comes first, wherever it
+            // is declared (its fields were laid over those of a class populated before it)
+            if (auto rootIt = byName.find("Object"); rootIt != byName.end())
+                place(rootIt->second);
             for (auto& c : program.classes)
                 if (c && c->typeParameters.empty())
                     place(c.get());
